@@ -5,31 +5,21 @@ import Cx.DriverPike
 import Cx.DriverFast
 import Cx.DriverCost
 import Cx.DriverConfig
+import Cx.DriverCaps
 /-! cxdrv — reads requests from stdin (one per line), writes one answer per line. -/
 
 def tokens (line : String) : List String := (line.trimAscii.toString.splitOn " ").filter (· ≠ "")
 
 /-- model-specific handlers first, then the core protocol -/
+def handlers : List (List String → Option String) :=
+  [Cx.DriverCompile.handle?, Cx.DriverLit.handle?, Cx.DriverPike.handle?, Cx.DriverFast.handle?, Cx.DriverCost.handle?,
+   Cx.DriverConfig.handle?, Cx.DriverCaps.handle?]
+
 def answer (line : String) : String :=
   let toks := tokens line
-  match Cx.DriverCompile.handle? toks with
+  match handlers.findSome? (fun f => f toks) with
   | some r => r
-  | none =>
-    match Cx.DriverLit.handle? toks with
-    | some r => r
-    | none =>
-      match Cx.DriverPike.handle? toks with
-      | some r => r
-      | none =>
-        match Cx.DriverFast.handle? toks with
-        | some r => r
-        | none =>
-          match Cx.DriverCost.handle? toks with
-          | some r => r
-          | none =>
-            match Cx.DriverConfig.handle? toks with
-            | some r => r
-            | none => Cx.Driver.handle line
+  | none => Cx.Driver.handle line
 
 partial def loop (h : IO.FS.Stream) (out : IO.FS.Stream) : IO Unit := do
   let line ← h.getLine
